@@ -27,6 +27,10 @@ type Parser struct {
 	// It is per-parser state: a package-level stack leaked operands from one
 	// parse into the next and raced between concurrent parses.
 	operandStack []core.Object
+
+	// depth counts the arrays and dictionaries currently open (bounded by
+	// core.MaxNestingDepth: the parser is recursive)
+	depth int
 }
 
 // NewParser creates a new content stream parser for the given data.
@@ -200,11 +204,21 @@ func (p *Parser) parseOperand() (core.Object, error) {
 
 	// Array
 	if c == '[' {
+		if p.depth >= core.MaxNestingDepth {
+			return nil, fmt.Errorf("arrays and dictionaries nested deeper than %d levels", core.MaxNestingDepth)
+		}
+		p.depth++
+		defer func() { p.depth-- }()
 		return p.parseArray()
 	}
 
 	// Dictionary (rare in content streams, but possible)
 	if c == '<' && p.pos+1 < len(p.data) && p.data[p.pos+1] == '<' {
+		if p.depth >= core.MaxNestingDepth {
+			return nil, fmt.Errorf("arrays and dictionaries nested deeper than %d levels", core.MaxNestingDepth)
+		}
+		p.depth++
+		defer func() { p.depth-- }()
 		return p.parseDict()
 	}
 
